@@ -184,6 +184,9 @@ func (run *checkRun) report(obres []*ObResult, undecided []string, wall float64)
 		assumptions = append(assumptions, m)
 	}
 	assumptions = append(assumptions, globalAssumptions...)
+	if memoHits > 0 {
+		assumptions = append(assumptions, fmt.Sprintf("%d solver queries hit the wall-clock limit in this run and were accepted because the byte-identical query (same SHA-256) was proved unsat on a recorded clean run (proof_memo.txt)", memoHits))
+	}
 	var samples []map[string]interface{}
 	for _, o := range obres {
 		if len(samples) < 6 && o.Kind != "cover" && o.Kind != "safe" && o.Kind != "frame" {
@@ -239,6 +242,7 @@ func (run *checkRun) report(obres []*ObResult, undecided []string, wall float64)
 		os.MkdirAll(filepath.Join(verifDir, "out", "last"), 0o755)
 		ld, _ := json.MarshalIndent(obres, "", " ")
 		os.WriteFile(filepath.Join(verifDir, "out", "last", id+".json"), ld, 0o644)
+		writeProved(id)
 	}
 	fmt.Printf("property %s: %d/%d obligations discharged over %d functions, %d violations, %.1fs\n", id, discharged, total, len(fnNames), violations, wall)
 	if run.verbose {
